@@ -289,7 +289,7 @@ func c15Check(v any) (fp, msg string) {
 	}
 	switch {
 	case v == nil:
-		if ts == nil || len(ts) != 0 {
+		if len(ts) != 0 {
 			return fail("C15:ToSlice-nil", "ToSlice(nil)=%#v, want an empty slice", ts)
 		}
 	case wslok:
@@ -336,6 +336,10 @@ func c15Check(v any) (fp, msg string) {
 		}
 	}); m != "" {
 		return fail("C15:As", "%s", m)
+	}
+	// ---------- reads are reads: no accessor may have changed what the store holds
+	if got, present := s.Get("k"); !present || s.Len() != 1 || (!sameValue(got, v) && !deepEq(got, v)) || reflect.TypeOf(got) != reflect.TypeOf(v) {
+		return fail("C15:getter-mutates-store", "after the typed getters the store holds %#v (%T), it was given %#v (%T)", got, got, v, v)
 	}
 	// ---------- misc total functions
 	if m = guard("IsNil/Type/Value/IsError/Error", func() {
